@@ -146,7 +146,7 @@ Section Domain.
   Notation reachin := (Analysis.reachin T univ null union inter single f).
   Notation livein := (Analysis.livein T null union inter f).
   Notation reachin_gen := (calculate_reachin_gen T univ null union inter single f).
-  Notation livein_gen := (calculate_livein_gen T null union inter f).
+  Notation livein_gen := (calculate_livein_gen T univ null union inter f).
 
   Theorem calculate_reachin_gen_eq : forall n b (st : state),
     fblock f n = Some b -> reachin_gen n st = reachin st b.
@@ -216,7 +216,7 @@ Qed.
 Corollary solver_gen_eq_In : forall T univ null union inter single f b (st : Analysis.state T),
   NoDup (ids f) -> In b (fn_blocks f) ->
   calculate_reachin_gen T univ null union inter single f (b_idx b) st = reachin T univ null union inter single f st b /\
-  (main_name_fresh f -> calculate_livein_gen T null union inter f (b_idx b) st = livein T null union inter f st b).
+  (main_name_fresh f -> calculate_livein_gen T univ null union inter f (b_idx b) st = livein T null union inter f st b).
 Proof.
   intros T univ null union inter single f b st Hnd Hin. pose proof (fblock_of_In f b Hnd Hin) as Hb.
   split; [apply calculate_reachin_gen_eq; exact Hb|].
@@ -249,11 +249,11 @@ Qed.
 Corollary solver_gen_no_exception : forall T univ null union inter single f n b (st : Analysis.state T),
   defined_okb f = true -> cover_prev_P f -> main_name_fresh f -> fblock f n = Some b -> covers T f st ->
   (exists ri, calculate_reachin_gen T univ null union inter single f n st = Some ri) /\
-  (exists li, calculate_livein_gen T null union inter f n st = Some li).
+  (exists li, calculate_livein_gen T univ null union inter f n st = Some li).
 Proof.
   intros T univ null union inter single f n b st Hdef Hcp Hm Hb Hc.
   rewrite (calculate_reachin_gen_eq T univ null union inter single f n b st Hb),
-    (calculate_livein_gen_eq T null union inter f n b st Hm Hb).
+    (calculate_livein_gen_eq T univ null union inter f n b st Hm Hb).
   split.
   - exact (reachin_defined T univ null union inter single f Hdef Hcp st n b Hb Hc).
   - exact (livein_defined T null union inter f Hdef st n b Hb Hc).
